@@ -210,7 +210,7 @@ theorem posInt_pass_iff (cfg : Cfg) (s : Str) :
   show validateNumber cfg .int true true false none s = .pass ↔ _
   rw [int_core]
   unfold LexSpec.isPositiveInt
-  simp only [forall_const, reduceCtorEq, false_implies, implies_true, and_true, Bool.and_eq_true,
+  simp only [forall_const, reduceCtorEq, false_implies, and_true, Bool.and_eq_true,
     decide_eq_true_eq]
   constructor
   · rintro ⟨hl, ho, h1, h2⟩
